@@ -61,6 +61,13 @@ TIE_SEARCH = {
     "op_bitwise_and_tie": ("TieOps", "op_BitwiseAnd"), "op_bitwise_or_tie": ("TieOps", "op_BitwiseOr"), "op_bitwise_xor_tie": ("TieOps", "op_BitwiseXor"),
     "op_shift_left_tie": ("TieOps", "op_BitShiftLeft"), "op_shift_right_tie": ("TieOps", "op_BitShiftRight"),
     "dispatch_is_the_pinned_table": ("TieOps", "dispatch"), "dispatch_covers_every_opcode": ("TieOps", "dispatch"),
+    "vm_get_local_effect": ("TieVm", "vm_get_local_impl"), "vm_get_local_panics": ("TieVm", "vm_get_local_impl"),
+    "vm_set_local_effect": ("TieVm", "vm_set_local_impl"), "vm_jump_effect": ("TieVm", "vm_jump_impl"),
+    "vm_jump_if_false_effect": ("TieVm", "vm_jump_if_false_impl"), "vm_loop_effect": ("TieVm", "vm_loop_impl"),
+    "vm_equal_effect": ("TieVm", "vm_equal_impl"), "vm_binary_op_numbers": ("TieVm", "vm_binary_op_impl(Subtract)"),
+    "vm_binary_op_type_error": ("TieVm", "vm_binary_op_impl(Subtract)"), "vm_logical_not_effect": ("TieVm", "vm_logical_not_impl"),
+    "vm_negate_number": ("TieVm", "vm_negate_impl"), "vm_negate_type_error": ("TieVm", "vm_negate_impl"),
+    "vm_bitwise_not_number": ("TieVm", "vm_bitwise_not_impl"), "jump_roundtrip": ("TieVm", "vm_jump_impl"), "loop_roundtrip": ("TieVm", "vm_loop_impl"),
     "precedence_from_discr": ("TieCompiler", "Precedence::from"),
     "precedence_from_panics_iff": ("TieCompiler", "Precedence::from"),
     "precedence_names_are_the_table": ("TieCompiler", "Precedence-enum"),
